@@ -60,11 +60,14 @@ def projects(tier):
     for fns in (["setw", "eq5", "fwd"], ["setw", "fwd", "eq5"], ["setw", "fwd"]):
         for d in ((2,) if tier == "quick" else (1, 2, 3)):
             out.append({"desc": {"targets": [fns], "invariants": [[0, "t", "ne", 7], [0, "t", "ne", 5], [0, "s", "ne", 7], [0, "t", "le", 1]], "filters": None}, "depth": d})
+    # same-timestamp sequences: tick() records block.timestamp, hit() sets s = 9 iff it runs at exactly that time
+    for d in ((2,) if tier == "quick" else (1, 2, 3)):
+        out.append({"desc": {"targets": [["tick", "hit"]], "invariants": [[0, "s", "ne", 9], [0, "t", "le", 1], [0, "t", "lenow", 0]], "filters": None}, "depth": d})
     # two targets, filters: every combination over a 2-element pool
     two = [["inc", "own"], ["set", "step"]]
     inv2 = [[0, "s", "ne", 2], [0, "s", "ne", 7], [1, "s", "ne", 5], [1, "s", "ne", 3], [0, "s", "le", 1]]
     TS = [[], [invgen.S1], [invgen.S1, invgen.S2], [invgen.S2]]
-    ES = [[], [invgen.S1]]
+    ES = [[], [invgen.S1], [invgen.S1, invgen.S2]]
     TC = [[], [0], [0, 1], [1]]
     EC = [[], [1]]
     TSEL = [[], [[0, ["inc"]]], [[0, ["inc"]], [0, ["own"]]], [[1, ["step"]], [1, ["set"]]]]
